@@ -58,7 +58,7 @@ def refresh_manifest_lines(root, mp):
         store_manifest(root, mp, ''.join(' '.join(e.to_list()) + '\n' for e in m.entries))
 
 
-def one_case(ctx, drv, env_priv, env_pub):
+def one_case(ctx, drv, env_priv, env_pub, env_locked=None):
     from gemato.recursiveloader import ManifestRecursiveLoader
     rng = ctx.rng
     root = common.scratch_dir('gv.c14.')
@@ -97,6 +97,12 @@ def one_case(ctx, drv, env_priv, env_pub):
         kid = rng.choice([None, None, gpgutil.PRIVATE_KEY_ID, UNKNOWN_KEY])
         have_secret = rng.random() < 0.8
         env = env_priv if have_secret else env_pub
+        locked = env_locked is not None and rng.random() < 0.12
+        if locked:
+            # the secret key is in the keyring but cannot be used (passphrase, no pinentry): gpg emits the start of the
+            # message before it fails
+            env, have_secret = env_locked, False
+            kid = rng.choice([None, UNKNOWN_KEY])
         verify = rng.random() < 0.9
         key_usable = have_secret and kid != UNKNOWN_KEY
         o = {'hashes': rng.choice(c03.HASHSETS), 'profile': 'default'}
@@ -127,8 +133,10 @@ def one_case(ctx, drv, env_priv, env_pub):
             impl = treeimpl.classify(e)
         after = updimpl.snapshot(root)
         scen = {'op': 'sign', 'orig': orig, 'top': top, 'sign_opt': opt, 'keyid': kid, 'have_secret': have_secret, 'verify': verify,
-                'options': o, 'edits': edits, 'manifests': sorted(pl.manifests), 'signed_subs': signed_subs}
+                'options': o, 'edits': edits, 'manifests': sorted(pl.manifests), 'signed_subs': signed_subs, 'locked_key': locked}
         ctx.count('orig:' + orig)
+        if locked:
+            ctx.count('key:locked by a passphrase')
         ctx.count('sign_opt:' + str(opt))
         ctx.count('key:' + ('usable' if key_usable else 'unusable'))
         ctx.count('top:' + top)
@@ -293,7 +301,7 @@ def run(ctx):
     ctx.rule = ('generated trees with sub-Manifests (plain and compressed, names needing escapes) whose top-level Manifest is named '
                 'Manifest / Manifest.gz / .bz2 / .xz and is unsigned or cleartext-signed by real gpg with the test key; 0-3 edits; '
                 'update + save through the library with sign option {unset, on, off} x key id {default, explicit, unknown} x secret key '
-                'present/absent x verification on/off x watermark {none, 0, 1, 60, 100000} x format x sort x force; and through the CLI '
+                'present/absent/locked by a passphrase (gpg then emits the start of the message before failing) x verification on/off x watermark {none, 0, 1, 60, 100000} x format x sort x force; and through the CLI '
                 '(-K keyfile, --sign/--no-sign, -k). Oracle: rewritten top-level Manifest is a cleartext-signed message that real gpg '
                 'verifies and whose cleartext equals the entries a verifying reload yields iff the decision says so; plain otherwise; '
                 'rewritten sub-Manifests carry no signature; an unusable key gives OpenPGPSigningFailure, never a normal return. '
@@ -304,14 +312,16 @@ def run(ctx):
     drv = common.Driver()
     env_priv = gpgutil.private_env()
     env_pub = public_env()
+    env_locked = gpgutil.locked_env()
     try:
         for _ in range(300 if ctx.tier == "quick" else 3000):
-            one_case(ctx, drv, env_priv, env_pub)
+            one_case(ctx, drv, env_priv, env_pub, env_locked)
         for _ in range(30 if ctx.tier == "quick" else 300):
             cli_case(ctx, env_priv)
     finally:
         env_priv.close()
         env_pub.close()
+        env_locked.close()
         drv.close()
 
 
